@@ -1103,7 +1103,7 @@ Section Oracle.
     okor (l1_write PS parse s n) (fun r =>
       let '(s1, res) := r in
       if (match l1_exp _ s with Some ex => ex <? l1_cur _ s + n | None => false end)
-      then s1 = s /\ res = RErr E_INVALID_INPUT
+      then s1 = s /\ res = RRej E_INVALID_INPUT
       else l1ok s1 p org /\ res = RWrote n /\ l1_exp _ s1 = l1_exp _ s /\
            sum_fill (l1_tr _ s1) = sum_fill (l1_tr _ s) + n /\
            (forall T acc, sum_fill (l1_tr _ s) - org + n <= T ->
@@ -1139,7 +1139,7 @@ Section Oracle.
     okor (l1_finish PS parse s) (fun r =>
       let '(s1, res) := r in
       if (match l1_exp _ s with Some ex => negb (ex =? l1_cur _ s) | None => false end)
-      then s1 = s /\ res = RErr E_INVALID_INPUT
+      then s1 = s /\ res = RRej E_INVALID_INPUT
       else res = RDone /\ sum_fill (l1_tr _ s1) = sum_fill (l1_tr _ s) /\
            sum_sym (l1_tr _ s1) = sum_fill (l1_tr _ s1) /\ sum_abs (l1_tr _ s1) = 0 /\
            l1_cur _ s1 = l1_cur _ s /\ l1_exp _ s1 = l1_exp _ s /\
@@ -1297,21 +1297,21 @@ Section Oracle.
   Fixpoint l1_results (exp : option Z) (cur : Z) (ops : list wop) : list opres * Z * bool :=
     match ops with
     | [] => ([], cur, false)
-    | OpWrite n :: r =>
+    | WoWrite n :: r =>
         if (match exp with Some ex => ex <? cur + n | None => false end)
-        then let '(rs, c, f) := l1_results exp cur r in (RErr E_INVALID_INPUT :: rs, c, f)
+        then let '(rs, c, f) := l1_results exp cur r in (RRej E_INVALID_INPUT :: rs, c, f)
         else let '(rs, c, f) := l1_results exp (cur + n) r in (RWrote n :: rs, c, f)
-    | OpFlush :: r => let '(rs, c, f) := l1_results exp cur r in (RDone :: rs, c, f)
-    | OpFinish :: _ =>
+    | WoFlush :: r => let '(rs, c, f) := l1_results exp cur r in (RDone :: rs, c, f)
+    | WoFinish :: _ =>
         if (match exp with Some ex => negb (ex =? cur) | None => false end)
-        then ([RErr E_INVALID_INPUT], cur, false) else ([RDone], cur, true)
+        then ([RRej E_INVALID_INPUT], cur, false) else ([RDone], cur, true)
     end.
 
   Fixpoint ops_total (ops : list wop) : Z :=
-    match ops with [] => 0 | OpWrite n :: r => n + ops_total r | _ :: r => ops_total r end.
+    match ops with [] => 0 | WoWrite n :: r => n + ops_total r | _ :: r => ops_total r end.
   (* slice lengths are lengths *)
   Fixpoint ops_ok (ops : list wop) : Prop :=
-    match ops with [] => True | OpWrite n :: r => 0 <= n /\ ops_ok r | _ :: r => ops_ok r end.
+    match ops with [] => True | WoWrite n :: r => 0 <= n /\ ops_ok r | _ :: r => ops_ok r end.
 
   Lemma ops_total_nonneg ops : ops_ok ops -> 0 <= ops_total ops.
   Proof. induction ops as [|[n| |] r IH]; cbn; intros H; try lia; try (apply IH; exact H). destruct H. specialize (IH H0). lia. Qed.
@@ -1349,7 +1349,7 @@ Section Oracle.
         intros [s1 res]. rewrite Hexp. cbn [fst snd].
         destruct (match exp with Some ex => ex <? l1_cur PS s + n | None => false end).
         * intros [E1 E2]. subst s1 res.
-          eapply okor_weaken; [apply (IH s (RErr E_INVALID_INPUT :: acc) L Hexp Hok); lia|].
+          eapply okor_weaken; [apply (IH s (RRej E_INVALID_INPUT :: acc) L Hexp Hok); lia|].
           intros [s2 res2]. destruct (l1_results exp (l1_cur PS s) r) as [[rs c] fin].
           intros (R1 & R2 & R3). split; [|split; assumption].
           rewrite R1. cbn [rev]. rewrite <- app_assoc. reflexivity.
@@ -2165,13 +2165,13 @@ Section Oracle.
   Fixpoint l2_results (cur : Z) (ops : list wop) : list opres * Z * bool :=
     match ops with
     | [] => ([], cur, false)
-    | OpWrite n :: r => let '(rs, c, f) := l2_results (cur + n) r in (RWrote n :: rs, c, f)
-    | OpFlush :: r => let '(rs, c, f) := l2_results cur r in (RDone :: rs, c, f)
-    | OpFinish :: _ => ([RDone], cur, true)
+    | WoWrite n :: r => let '(rs, c, f) := l2_results (cur + n) r in (RWrote n :: rs, c, f)
+    | WoFlush :: r => let '(rs, c, f) := l2_results cur r in (RDone :: rs, c, f)
+    | WoFinish :: _ => ([RDone], cur, true)
     end.
 
   Fixpoint no_flush (ops : list wop) : Prop :=
-    match ops with [] => True | OpFlush :: _ => False | _ :: r => no_flush r end.
+    match ops with [] => True | WoFlush :: _ => False | _ :: r => no_flush r end.
 
   Lemma l2_results_mono : forall ops cur, ops_ok ops -> cur <= snd (fst (l2_results cur ops)).
   Proof.
@@ -2332,12 +2332,12 @@ Proof. induction ops as [|[n| |] r IH]; cbn; intros H; try lia; try (apply IH; e
 
 (* a call history before the final finish() *)
 Fixpoint no_finish (ops : list wop) : Prop :=
-  match ops with [] => True | OpFinish :: _ => False | _ :: r => no_finish r end.
+  match ops with [] => True | WoFinish :: _ => False | _ :: r => no_finish r end.
 
 Lemma l1_results_body exp : forall body cur, no_finish body -> ops_ok body ->
   (match exp with Some ex => ex = cur + ops_total body | None => True end) ->
-  snd (fst (l1_results exp cur (body ++ [OpFinish]))) = cur + ops_total body /\
-  snd (l1_results exp cur (body ++ [OpFinish])) = true.
+  snd (fst (l1_results exp cur (body ++ [WoFinish]))) = cur + ops_total body /\
+  snd (l1_results exp cur (body ++ [WoFinish])) = true.
 Proof.
   induction body as [|[n| |] r IH]; intros cur Hnf Hok Hex; cbn [app l1_results ops_total no_finish ops_ok] in *.
   - assert (E : (match exp with Some ex => negb (ex =? cur) | None => false end) = false).
@@ -2347,9 +2347,9 @@ Proof.
     assert (E : (match exp with Some ex => ex <? cur + n | None => false end) = false).
     { destruct exp as [ex|]; [|reflexivity]. subst ex. apply Z.ltb_ge. lia. }
     rewrite E. specialize (IH (cur + n) Hnf Hok).
-    destruct (l1_results exp (cur + n) (r ++ [OpFinish])) as [[rs c] f]. cbn [fst snd] in *.
+    destruct (l1_results exp (cur + n) (r ++ [WoFinish])) as [[rs c] f]. cbn [fst snd] in *.
     destruct IH as [I1 I2]; [destruct exp; [lia|exact I]|]. split; [lia|exact I2].
-  - specialize (IH cur Hnf Hok Hex). destruct (l1_results exp cur (r ++ [OpFinish])) as [[rs c] f]. exact IH.
+  - specialize (IH cur Hnf Hok Hex). destruct (l1_results exp cur (r ++ [WoFinish])) as [[rs c] f]. exact IH.
   - contradiction.
 Qed.
 
@@ -2374,8 +2374,8 @@ Theorem enc_partition_independent_lzma1 : forall (PS : Type) (parse : PS -> Z ->
   (match expected with Some ex => ex = ops_total body | None => True end) ->
   (match preset with Some plen => Z.min plen dict | None => 0 end) + ops_total body <= U32_MAX ->
   l1_new PS normal bt4 dict nice preset expected ps0 = Ok s0 ->
-  l1_run PS parse s0 (body ++ [OpFinish]) [] = Ok (s1, res) ->
-  l1_run PS parse s0 (body' ++ [OpFinish]) [] = Ok (s1', res') ->
+  l1_run PS parse s0 (body ++ [WoFinish]) [] = Ok (s1, res) ->
+  l1_run PS parse s0 (body' ++ [WoFinish]) [] = Ok (s1', res') ->
   rsyms (l1_tr _ s1) = rsyms (l1_tr _ s1') /\ l1_ps _ s1 = l1_ps _ s1'.
 Proof.
   intros PS parse ps0 normal bt4 dict nice preset expected body body' s0 s1 res s1' res'
@@ -2385,15 +2385,15 @@ Proof.
   rewrite Enew in Hnew. cbn [okor] in Hnew.
   destruct Hnew as (p & W & L & F0 & Ex & C0 & _ & _).
   set (org := - (match preset with Some plen => Z.min plen dict | None => 0 end)) in *.
-  assert (Hfin : ops_ok [OpFinish]) by exact I.
-  pose proof (l1_run_spec PS parse chunkc p org expected W (body ++ [OpFinish]) s0 [] L Ex (ops_ok_app _ _ Hok Hfin)) as R.
-  pose proof (l1_run_spec PS parse chunkc p org expected W (body' ++ [OpFinish]) s0 [] L Ex (ops_ok_app _ _ Hok' Hfin)) as R'.
+  assert (Hfin : ops_ok [WoFinish]) by exact I.
+  pose proof (l1_run_spec PS parse chunkc p org expected W (body ++ [WoFinish]) s0 [] L Ex (ops_ok_app _ _ Hok Hfin)) as R.
+  pose proof (l1_run_spec PS parse chunkc p org expected W (body' ++ [WoFinish]) s0 [] L Ex (ops_ok_app _ _ Hok' Hfin)) as R'.
   rewrite Erun in R. rewrite Erun' in R'. cbn [okor] in R, R'.
   rewrite C0 in R, R'.
   destruct (l1_results_body expected body 0 Hnf Hok) as [B1 B2]; [destruct expected; [lia|exact I]|].
   destruct (l1_results_body expected body' 0 Hnf' Hok') as [B1' B2']; [destruct expected; [lia|exact I]|].
-  destruct (l1_results expected 0 (body ++ [OpFinish])) as [[rs c] fin].
-  destruct (l1_results expected 0 (body' ++ [OpFinish])) as [[rs' c'] fin'].
+  destruct (l1_results expected 0 (body ++ [WoFinish])) as [[rs c] fin].
+  destruct (l1_results expected 0 (body' ++ [WoFinish])) as [[rs' c'] fin'].
   cbn [fst snd] in *. subst fin fin' c c'.
   specialize (R ltac:(rewrite F0, ops_total_app; cbn [ops_total]; unfold org; lia)).
   specialize (R' ltac:(rewrite F0, ops_total_app; cbn [ops_total]; unfold org; lia)).
@@ -2449,14 +2449,14 @@ Qed.
    enc_partition_independent (LZMA2Writer without chunk_size and without flush; XZWriter without
    block size forwards to one LZMA2Writer) *)
 Lemma l2_results_body : forall body cur, no_finish body ->
-  snd (fst (l2_results cur (body ++ [OpFinish]))) = cur + ops_total body /\
-  snd (l2_results cur (body ++ [OpFinish])) = true.
+  snd (fst (l2_results cur (body ++ [WoFinish]))) = cur + ops_total body /\
+  snd (l2_results cur (body ++ [WoFinish])) = true.
 Proof.
   induction body as [|[n| |] r IH]; intros cur Hnf; cbn [app l2_results ops_total no_finish] in *.
   - cbn. split; [lia|reflexivity].
-  - specialize (IH (cur + n) Hnf). destruct (l2_results (cur + n) (r ++ [OpFinish])) as [[rs c] f]. cbn [fst snd] in *.
+  - specialize (IH (cur + n) Hnf). destruct (l2_results (cur + n) (r ++ [WoFinish])) as [[rs c] f]. cbn [fst snd] in *.
     destruct IH. split; [lia|assumption].
-  - specialize (IH cur Hnf). destruct (l2_results cur (r ++ [OpFinish])) as [[rs c] f]. exact IH.
+  - specialize (IH cur Hnf). destruct (l2_results cur (r ++ [WoFinish])) as [[rs c] f]. exact IH.
   - contradiction.
 Qed.
 
@@ -2473,8 +2473,8 @@ Theorem enc_partition_independent_lzma2 : forall (PS : Type) (parse : PS -> Z ->
   ops_ok body -> ops_ok body' -> no_finish body -> no_finish body' -> no_flush body -> no_flush body' ->
   ops_total body = ops_total body' -> ops_total body <= 4611686018427387904 ->
   l2_new_repaired PS normal bt4 dict nice preset None ps0 = Ok s0 ->
-  l2_run PS parse chunkc s0 (body ++ [OpFinish]) [] = Ok (s1, res) ->
-  l2_run PS parse chunkc s0 (body' ++ [OpFinish]) [] = Ok (s1', res') ->
+  l2_run PS parse chunkc s0 (body ++ [WoFinish]) [] = Ok (s1, res) ->
+  l2_run PS parse chunkc s0 (body' ++ [WoFinish]) [] = Ok (s1', res') ->
   rsyms (l2_tr _ s1) = rsyms (l2_tr _ s1') /\ l2_ps _ s1 = l2_ps _ s1'.
 Proof.
   intros PS parse chunkc ps0 normal bt4 dict nice preset body body' s0 s1 res s1' res'
@@ -2482,15 +2482,15 @@ Proof.
   pose proof (l2_new_spec PS parse chunkc normal bt4 dict nice preset None ps0 Ho Hpl) as Hnew.
   rewrite Enew in Hnew. cbn [okor] in Hnew.
   destruct Hnew as (p & org & W & HH & L & F0 & _ & _ & _ & Hch).
-  assert (Hfin : ops_ok [OpFinish]) by exact I.
-  assert (Hnff : no_flush [OpFinish]) by exact I.
-  pose proof (l2_run_spec PS parse chunkc p W HH (body ++ [OpFinish]) s0 org [] L (ops_ok_app _ _ Hok Hfin)) as R.
-  pose proof (l2_run_spec PS parse chunkc p W HH (body' ++ [OpFinish]) s0 org [] L (ops_ok_app _ _ Hok' Hfin)) as R'.
+  assert (Hfin : ops_ok [WoFinish]) by exact I.
+  assert (Hnff : no_flush [WoFinish]) by exact I.
+  pose proof (l2_run_spec PS parse chunkc p W HH (body ++ [WoFinish]) s0 org [] L (ops_ok_app _ _ Hok Hfin)) as R.
+  pose proof (l2_run_spec PS parse chunkc p W HH (body' ++ [WoFinish]) s0 org [] L (ops_ok_app _ _ Hok' Hfin)) as R'.
   rewrite Erun in R. rewrite Erun' in R'. cbn [okor] in R, R'. rewrite F0 in R, R'.
   destruct (l2_results_body body 0 Hnf) as [B1 B2].
   destruct (l2_results_body body' 0 Hnf') as [B1' B2'].
-  destruct (l2_results 0 (body ++ [OpFinish])) as [[rs c] fin].
-  destruct (l2_results 0 (body' ++ [OpFinish])) as [[rs' c'] fin'].
+  destruct (l2_results 0 (body ++ [WoFinish])) as [[rs c] fin].
+  destruct (l2_results 0 (body' ++ [WoFinish])) as [[rs' c'] fin'].
   cbn [fst snd] in *. subst fin fin' c c'.
   specialize (R ltac:(rewrite ops_total_app; cbn [ops_total]; lia)).
   specialize (R' ltac:(rewrite ops_total_app; cbn [ops_total]; lia)).
@@ -2529,7 +2529,7 @@ Qed.
 (* extra_size_before = max(64 KiB - dict_size, mode's) (repo commit fa095d0), normal mode,
    dict_size 4096: a 65465-byte incompressible chunk whose last consultation left 4094 bytes read
    ahead, with a window move in between *)
-Definition old_max_witness_ops : list wop := [OpWrite 334097; OpWrite 100; OpFinish].
+Definition old_max_witness_ops : list wop := [WoWrite 334097; WoWrite 100; WoFinish].
 Definition old_max_witness_ds : list ditem :=
   repeat (DSym 273 273 false) 967 ++ [DSym 273 273 true; DChunk 65511] ++
   repeat (DSym 273 273 false) 239 ++ [DSym 216 216 false; DSym 4096 1 false; DSym 0 1 true; DChunk 65511].
@@ -2545,7 +2545,7 @@ Lemma old_max_witness_repaired :
 Proof. vm_compute. exact I. Qed.
 
 (* extra_size_before = the mode's own (before fa095d0), fast mode, dict_size 4096 *)
-Definition old_mode_witness_ops : list wop := [OpWrite 268834; OpWrite 100; OpFinish].
+Definition old_mode_witness_ops : list wop := [WoWrite 268834; WoWrite 100; WoFinish].
 Definition old_mode_witness_ds : list ditem :=
   repeat (DSym 273 273 false) 759 ++ [DSym 273 273 true; DChunk 65511] ++
   repeat (DSym 273 273 false) 223 ++ [DSym 1 1 true; DChunk 65511].
